@@ -527,6 +527,27 @@ def check_reflected(c, rec):
             raise Violation("value", f"{f}: gradient of the tensor operand differs from the closed form; {c}", region=f + "/grad")
 
 
+# ---- operands with a zero-length dimension: forward equals NumPy (shape, dtype, values) ---------------
+def check_zero_size(c, rec):
+    from .. import zerosize
+    try:
+        out, ref, ops_ = zerosize.run(c)
+    except Exception as e:  # noqa: BLE001
+        # NumPy (and PyTorch) accept every member of this family; they are ordinary shapes
+        raise Violation("rejected_documented", f"{c['kind']} with a zero-length dimension raised {type(e).__name__}: {e}; {c}",
+                        region="zero_size")
+    rec.tag(c["kind"])
+    rec.nontrivial(True)
+    if tuple(out.shape) != tuple(ref.shape):
+        raise Violation("shape", f"{c['kind']}: result shape {tuple(out.shape)} != NumPy {ref.shape}; {c}", region="zero_size")
+    if out.dtype != np.dtype(c["dtype"]):
+        raise Violation("dtype", f"{c['kind']}: result dtype {out.dtype} for {c['dtype']} operands; {c}", region="zero_size")
+    if ref.size and not np.allclose(np.asarray(out.data, dtype=np.float64), ref.astype(np.float64), rtol=1e-5, atol=1e-6):
+        raise Violation("value", f"{c['kind']}: values differ from NumPy; {c}", region="zero_size")
+    if out.requires_grad != any(t.requires_grad for t in ops_):
+        raise Violation("flag", f"{c['kind']}: requires_grad {out.requires_grad}; {c}", region="zero_size")
+
+
 def subchecks():
     subs = []
     for op in ops.OPS:
@@ -536,6 +557,8 @@ def subchecks():
     subs.append(SubCheck("iteration", check_iter, iter_cases, quick=300, thorough=5000, shards_thorough=2))
     subs.append(SubCheck("float16_mean", check_f16, f16_cases, quick=150, thorough=2000))
     subs.append(SubCheck("reflected_operators", check_reflected, reflected_cases, quick=400, thorough=4000))
+    from .. import zerosize
+    subs.append(SubCheck("zero_size", check_zero_size, zerosize.cases, quick=500, thorough=6000))
     subs.append(SubCheck("int_tensor_scalar", check_int_scalar, int_scalar_cases, quick=300, thorough=3000))
     subs.append(SubCheck("dim_grid", check_dim_grid, None, enum=enum_dims, exhaustive=True, shards_quick=8, shards_thorough=16))
     return subs
